@@ -423,7 +423,7 @@ def check_pack(ctx, res: Result, prop_id: str):
             if imp[0] == "symbol" and imp[1] in ctx.prog.modules and imp[1].split(".")[-1].startswith("_") and ctx.prog.modules[imp[1]] not in mods:
                 mods.append(ctx.prog.modules[imp[1]])
     fis = [fi for fi in ctx.prog.functions.values() if fi.module in mods]
-    lints = (("G-STALE", check_stale_in_loop), ("G-REUSE", check_iterator_reuse), ("N-FANCYAUG", check_fancy_augassign), ("G-GROUPBY", check_groupby_sorted), ("E-SHARED", check_shared_literals), ("G-LIVEITER", check_mutation_while_iterating), ("E-DEFAULTARG", check_mutable_defaults), ("G-KEYPROJ", check_key_projection), ("K-OWNER", check_id_owner), ("G-COUNTERADD", check_counter_arith), ("G-ZEROBUCKET", check_zero_buckets), ("G-LENVALID", check_len_validated_cache), ("G-SHAPEGUESS", check_layout_guess), ("K-LABELTYPE", check_label_type_dispatch), ("G-ZIPALIGN", check_zip_alignment), ("G-TRUTHY0", check_truthy_index), ("G-PYTRAP", check_python_traps), ("G-LOSSYKEY", check_lossy_keys), ("G-TRISTATE", check_tristate_flag), ("N-TRACEMUL", check_trace_of_elementwise), ("G-REUSEDREC", check_reused_record), ("G-LOOPLEAK", check_loop_leak), ("G-ACCRESET", check_accumulator_reset), ("G-ARGSWAP", check_swapped_arguments), ("K-SORTPAIR", check_sorted_pair), ("K-ROLEMEM", check_role_membership), ("G-ORFLAG", check_or_merged_flag), ("G-ORGET", check_falsy_fallback), ("G-HASHABLE", check_hashable_dispatch), ("K-PAIRLEN", check_len_of_pair), ("G-EMPTYNONE", check_empty_as_missing))
+    lints = (("G-STALE", check_stale_in_loop), ("G-REUSE", check_iterator_reuse), ("N-FANCYAUG", check_fancy_augassign), ("G-GROUPBY", check_groupby_sorted), ("E-SHARED", check_shared_literals), ("G-LIVEITER", check_mutation_while_iterating), ("E-DEFAULTARG", check_mutable_defaults), ("G-KEYPROJ", check_key_projection), ("K-OWNER", check_id_owner), ("G-COUNTERADD", check_counter_arith), ("G-ZEROBUCKET", check_zero_buckets), ("G-LENVALID", check_len_validated_cache), ("G-SHAPEGUESS", check_layout_guess), ("K-LABELTYPE", check_label_type_dispatch), ("G-ZIPALIGN", check_zip_alignment), ("G-TRUTHY0", check_truthy_index), ("G-PYTRAP", check_python_traps), ("G-LOSSYKEY", check_lossy_keys), ("G-TRISTATE", check_tristate_flag), ("N-TRACEMUL", check_trace_of_elementwise), ("G-REUSEDREC", check_reused_record), ("G-LOOPLEAK", check_loop_leak), ("G-ACCRESET", check_accumulator_reset), ("G-ARGSWAP", check_swapped_arguments), ("K-SORTPAIR", check_sorted_pair), ("K-ROLEMEM", check_role_membership), ("G-ORFLAG", check_or_merged_flag), ("G-ORGET", check_falsy_fallback), ("G-HASHABLE", check_hashable_dispatch), ("K-PAIRLEN", check_len_of_pair), ("G-EMPTYNONE", check_empty_as_missing), ("E-SETDEFAULT", check_setdefault_shared), ("G-CONSECPAIR", check_consecutive_pairs))
     seen_keys = {(o.rule, o.func, o.stmt) for o in res.obs}
     for rule, fn in lints:
         n_f = n_v = 0
@@ -1583,6 +1583,13 @@ def check_falsy_fallback(ctx, res: Result, dotted, rule="G-ORGET"):
             if is_get(l) and is_get(r) and norm(l.args[0]) == norm(r.args[0]) and norm(l.func.value) != norm(r.func.value):
                 n += 1
                 res.violation(rule, f, norm(b)[:90], norm(l.args[0])[:20], f"`{norm(b)[:60]}` consults `{norm(r.func.value)[:20]}` whenever `{norm(l)[:30]}` is falsy: a stored 0 / 0.0 / \"\" (a zero weight, time 0, layer 0) is treated as missing and replaced by the other place's value or None", loc(fi, b))
+    # `self._weights.get(edge_id) or 1`: a stored weight 0 / 0.0 is replaced by the default 1 (use `.get(edge_id, 1)`)
+    for b in walk_no_nested(fi.node):
+        if isinstance(b, ast.BoolOp) and isinstance(b.op, ast.Or) and len(b.values) == 2:
+            l, r = b.values
+            if isinstance(l, ast.Call) and isinstance(l.func, ast.Attribute) and l.func.attr == "get" and len(l.args) == 1 and isinstance(r, ast.Constant) and isinstance(r.value, (int, float)) and not isinstance(r.value, bool) and r.value != 0 and "weight" in norm(l.func.value).lower():
+                n += 1
+                res.violation(rule, f, norm(b)[:90], norm(l.func.value)[:30], f"`{norm(b)[:60]}` replaces a stored weight 0 / 0.0 by {r.value}: a hyperedge of weight 0 is then indistinguishable from one of weight {r.value} (`.get(key, {r.value})` keeps the 0)", loc(fi, b))
     if n == 0:
         res.ok(rule, f, "no two-place lookup by truthiness", "scan", loc(fi, fi.node))
 
@@ -1662,6 +1669,61 @@ def check_empty_as_missing(ctx, res: Result, dotted, rule="G-EMPTYNONE"):
                 res.violation(rule, f, norm(i_.test)[:90], p_, f"`{norm(empt[0])}` sends an empty `{p_}` down the same path as `{p_} is None` (`{norm(rebinds[0])[:40]}`): an empty collection given on purpose - no size / no item selected, every sum 0 - is silently replaced by the default", loc(fi, i_))
     if n == 0:
         res.ok(rule, f, "no empty collection treated as missing", "scan", loc(fi, fi.node))
+
+
+def check_setdefault_shared(ctx, res: Result, dotted, rule="E-SETDEFAULT"):
+    """`table.setdefault(key, shared).update(...)` inside a loop over keys, where `shared` is one object created outside that loop: every key
+    that is first seen in this pass gets THE SAME object as its entry, and the in-place update through one key shows under the others."""
+    v = ctx.view(dotted)
+    fi = v.fi
+    f = fi.short
+    res.rules.setdefault(rule, "the default handed to setdefault inside a loop over keys is a fresh object per key when the entry is then mutated in place (never one object shared by all the keys of the pass)")
+    n = 0
+    for c in walk_no_nested(fi.node):
+        if not (isinstance(c, ast.Call) and isinstance(c.func, ast.Attribute) and c.func.attr in ("update", "add", "append", "extend", "__ior__")):
+            continue
+        inner = c.func.value
+        if not (isinstance(inner, ast.Call) and isinstance(inner.func, ast.Attribute) and inner.func.attr == "setdefault" and len(inner.args) == 2 and isinstance(inner.args[1], ast.Name)):
+            continue
+        lp = v.enclosing(c, (ast.For, ast.While))
+        if lp is None:
+            continue
+        shared = inner.args[1].id
+        defs_in_loop = [a for a in ast.walk(lp) if isinstance(a, ast.Assign) and any(isinstance(t, ast.Name) and t.id == shared for t in a.targets)]
+        key_uses_loopvar = isinstance(lp, ast.For) and {x.id for x in ast.walk(lp.target) if isinstance(x, ast.Name)} & {x.id for x in ast.walk(inner.args[0]) if isinstance(x, ast.Name)}
+        if not defs_in_loop and key_uses_loopvar:
+            n += 1
+            res.violation(rule, f, norm(c)[:90], shared, f"`{norm(inner)[:50]}` hands the one object `{shared}` (created outside this loop) to every key that has no entry yet, and `.{c.func.attr}(...)` then changes it in place: the keys first seen in the same pass share one entry, so what is added for one of them later shows under the others", loc(fi, c))
+    if n == 0:
+        res.ok(rule, f, "no shared setdefault default mutated in place", "scan", loc(fi, fi.node))
+
+
+def check_consecutive_pairs(ctx, res: Result, dotted, rule="G-CONSECPAIR"):
+    """`for a, b in zip(items, items[1:])` enumerates CONSECUTIVE items only.  Where every unordered pair of the items has to be
+    examined (the hyperedges incident to a node, for the line graph) the pairs (i, j) with j > i + 1 are never compared."""
+    v = ctx.view(dotted)
+    fi = v.fi
+    f = fi.short
+    res.rules.setdefault(rule, "all unordered pairs of a list are enumerated with combinations / a double loop, not with zip(items, items[1:]) (consecutive items only)")
+    n = 0
+    for c in walk_no_nested(fi.node):
+        if isinstance(c, ast.Call) and isinstance(c.func, ast.Name) and c.func.id == "zip" and len(c.args) == 2:
+            a, b = c.args
+
+            def shifted(x, y):
+                if isinstance(y, ast.Subscript) and isinstance(y.slice, ast.Slice) and isinstance(y.slice.lower, ast.Constant) and y.slice.lower.value == 1 and y.slice.upper is None and norm(y.value) == norm(x):
+                    return True
+                # zip(zip(ids, incident), zip(ids[1:], incident[1:]))
+                return isinstance(x, ast.Call) and isinstance(y, ast.Call) and norm(x.func) == "zip" and norm(y.func) == "zip" and len(x.args) == len(y.args) and len(x.args) > 0 and all(shifted(p_, q_) for p_, q_ in zip(x.args, y.args))
+
+            if shifted(a, b):
+                # reported where the pairs feed a similarity / adjacency decision between the two items
+                lp = next((l for l in [v.parent.get(id(c))] if isinstance(l, (ast.For, ast.comprehension))), None)
+                if lp is not None:
+                    n += 1
+                    res.violation(rule, f, norm(c)[:80], norm(a)[:30], f"`{norm(c)[:50]}` pairs each item with its successor only: two items that are not next to each other in `{norm(a)[:20]}` are never compared, so a link between them (two hyperedges sharing this node) is missed", loc(fi, c))
+    if n == 0:
+        res.ok(rule, f, "no consecutive-pair enumeration", "scan", loc(fi, fi.node))
 
 def check_reused_record(ctx, res: Result, dotted, rule="G-REUSEDREC"):
     """One mutable record (a dict created once) is filled item after item with `.update(...)` / element stores and handed to a
